@@ -11,10 +11,17 @@ BAND_RE = re.compile(r"^b(\d+)$")
 
 
 def strip(node):
+    """The comparable part of a snapshot node.  A directory whose time is the present moment (within the hour) was made by
+    the operation under test without a time being set on it (restore makes the missing parents of a file whose directory
+    has no entry of its own in a stitched or damaged listing): its time reads as None, so two such directories compare
+    equal across executions while a directory whose recorded time was NOT applied still differs from its source."""
+    import time
     if node is None:
         return None
     out = {k: node.get(k) for k in ("k", "mode", "mtime", "uid", "gid", "data", "target")}
     if node.get("k") == "d":
+        if isinstance(out.get("mtime"), int) and abs(out["mtime"] - time.time_ns()) < 3600 * 10**9:
+            out["mtime"] = None
         out["c"] = {n: strip(c) for n, c in (node.get("c") or {}).items()}
     return out
 
